@@ -66,7 +66,7 @@ ContinuationEqual(e, k) == /\ ~e.died /\ ~Has(e, "cont_panic")
 \* (the kernel then completes only whole pages of it: observed on the real store)
 TornWal == \/ c.tag = "wal.write" /\ c.torn > 0
            \/ c.main_last = "wal.write" /\ c.tag # "wal.write"
-\* main thread between "batch appended to tmp.data" and "stable pointer moved" (Durability.tla: pc \in {"wal","deliver","ptr"})
+\* main thread between "batch appended to tmp.data" and "stable pointer moved" (Durability.tla: between Batch(b) and SetPtr(b), pc = "ptr")
 BatchWindow == c.main_last \in {"wal.write", "wal.synced", "stable.ptr.pre"}
 \* main thread between "stable pointer moved" and "context.data flushed" (pc \in {"ctxhead","ctxbody"})
 \* (main_last is the last hook the main thread had PASSED when the process died; when another thread died at its own
@@ -80,8 +80,10 @@ CtxWindow == c.main_last \in {"ctx.created", "ctx.head", "ctx.body"}
 DevTornWalPanics(e) == TornWal /\ ~e.opened /\ ~e.died /\ e.site = "(*FileQueue).Start"
 
 \* a torn / half-written context.data: NewRunContext (or GetCandidates) panics on every open
+\* (site = innermost function of package store on the panic stack, panic_head = panic message up to its first colon)
 DevTornCtxPanics(e) == /\ CtxWindow /\ ~e.opened /\ ~e.died
-                       /\ e.site \in {"(*CandidateCache).Decode", "(*RunContext).load", "NewRunContext", "NewChainDataBase"}
+                       /\ \/ e.site \in {"(*CandidateCache).Decode", "(*RunContext).load", "NewRunContext"}
+                          \/ e.site = "NewChainDataBase" /\ e.panic_head = "get candidates err"
 
 EitherAcct(o, k) == \A a \in DOMAIN o.accounts :
                        \/ o.accounts[a] = Obs(k).accounts[a]
@@ -93,7 +95,7 @@ EitherAcct(o, k) == \A a \in DOMAIN o.accounts :
 DevTornRecordAccepted(e) ==
   /\ TornWal
   /\ \/ e.died /\ e.site = "(*SyncFileDB).afterWriteExtend"
-     \/ ~e.opened /\ ~e.died /\ e.site = "NewChainDataBase"       \* the rewritten stable block itself no longer decodes
+     \/ ~e.opened /\ ~e.died /\ e.site = "NewChainDataBase" /\ e.panic_head = "get stable block err"  \* the rewritten stable block no longer decodes
      \/ /\ Opens(e) /\ StableNotOlder(e.obs) /\ StableBegun(e.obs)
         /\ ChainClosed(e.obs, Obs(e.obs.stable_h))
         /\ \E a \in DOMAIN e.obs.accounts : ~e.obs.accounts[a].ok
